@@ -327,17 +327,19 @@ def run(args):
     os.chdir(cwd)   # requested names must not accidentally be existing files
     try:
         cases = [(args.seed, i) for i in range(n)]
+        rkind = (core.REPLAY.get('replay') or {}).get('kind') if args.replay else None
+        cases = core.replay_cases(args, cases) if rkind != 'wrapper' else []
         B = 500
         batches = [cases[k:k + B] for k in range(0, len(cases), B)]
         hf = 0
 
-        def handle(r, case):
+        def handle(r, case, kind='direct'):
             chk.evaluations += 1
             if '_exception' in r:
-                chk.violation('exception:' + r['_exception'].split(':')[0], r['_exception'], {'case': case, 'tb': r.get('_tb')})
+                chk.violation('exception:' + r['_exception'].split(':')[0], r['_exception'], {'case': list(case[:2]), 'kind': kind, 'tb': r.get('_tb')})
                 return
             if 'fail' in r:
-                chk.violation(r['fail'], r['what'], r.get('case'))
+                chk.violation(r['fail'], r['what'], {'case': list(case[:2]), 'kind': kind, 'detail': r.get('case')})
                 return
             if r.get('n'):
                 chk.cls('|'.join(r['feats']) + ('|exit' if r.get('exit') else ''))
@@ -361,13 +363,15 @@ def run(args):
             for c, r in zip(b, results):
                 handle(r, c)
         wcases = [(args.seed, i, cwd) for i in range(nw)]
+        if args.replay:
+            wcases = [(args.seed, args.replay_case[1], cwd)] if rkind == 'wrapper' else []
         wb = [wcases[k:k + 20] for k in range(0, len(wcases), 20)]
         for _, b, results in core.forkmap(lambda bb: [safe(run_wrapper_case, c) for c in bb], wb, isolated=False):
             if isinstance(results, dict):
                 hf += 1
                 continue
             for c, r in zip(b, results):
-                handle(r, c)
+                handle(r, c, 'wrapper')
                 chk.monitor_hits['subprocess_path'] += 1
         up = run_upstream_tests()
         chk.extra['upstream_tests_with_contract'] = up
